@@ -22,7 +22,8 @@ U1, U2, U3 = "urn:u1", "urn:u2", "urn:u3"
 
 TEXTS = [None, "x", " x ", "x  y", "   ", "\t", "\xa0", " \xa0 ", "\n    ", "\n x \n", "&lt;&amp;&#233;", "<![CDATA[<x> ]]>",
          "a<![CDATA[ b ]]> c", "  \n", "\n  ", " \n ", "x\n\ty", "\xa0x", "\r\n"]
-ATTRS = [["k", "v"], ["k", "a b"], ["k", "&lt;&amp;&quot;"], ["k", ""], ["k", " x "], ["xml:lang", "en"], ["xml:space", "preserve"]]
+ATTRS = [["k", "v"], ["k", "a b"], ["k", "&lt;&amp;&quot;"], ["k", ""], ["k", " x "], ["k", "it's &quot;q&quot;"],
+         ["xml:lang", "en"], ["xml:space", "preserve"]]
 OPTIONS = [(clean, collapse, lit) for clean in (True, False) for collapse in (True, False)
            for lit in ((), ("b",), ("a", "b"))]
 
@@ -62,6 +63,7 @@ def features(d, path):
         out.append(["qattr_ancestor", p])
         out.append(["qattr_redeclared", p])
     out.append(["qattr_here", p])
+    out.append(["qattr_here_special", p])
     for a in ATTRS:
         out.append(["attr", p, a])
     for t in TEXTS[1:]:
@@ -107,6 +109,10 @@ def apply(doc, devs):
         elif kind == "qattr_here":
             _ensure_decl(e, "p", U1) if not any(x[0] == "p" for x in e["nsdecl"]) else None
             e["attrs"].append(["p:attr", "w"])
+        elif kind == "qattr_here_special":
+            _ensure_decl(e, "p", U1) if not any(x[0] == "p" for x in e["nsdecl"]) else None
+            e["attrs"].append(["p:attr", "say &quot;hi&quot; &amp; &lt;go&gt; 'x'"])
+            e["attrs"].append(["xml:lang", "e&quot;n"])
         elif kind == "qattr_ancestor":
             if not any(x[0] == "p" for x in d["nsdecl"]):
                 _ensure_decl(d, "p", U1)
